@@ -298,4 +298,54 @@ def specHermMatProd (u : Uplo) (n : Nat) (M : Nat → Nat → α × α) (x : Nat
 
 end exec
 
+/-! ### what a wrapper does to its third-party solver object (regenerated table `Gen.OpsFootprint.solverCalls`) -/
+
+/-- one recorded use of a solver object: (wrapper class, wrapper method, solver object, solver classes, member function called, arguments as written) -/
+abbrev SolverCall := String × String × String × String × String × String
+namespace SolverCall
+def cls (e : SolverCall) : String := e.1
+def method (e : SolverCall) : String := e.2.1
+def obj (e : SolverCall) : String := e.2.2.1
+def kinds (e : SolverCall) : String := e.2.2.2.1
+def call (e : SolverCall) : String := e.2.2.2.2.1
+def args (e : SolverCall) : String := e.2.2.2.2.2
+end SolverCall
+
+/-- member functions of the solver classes that the wrappers are documented to use: factorize, status, solve, the two triangular factors and the
+    permutation of a Cholesky factorization, and `isSymmetric` -/
+def documentedNames : List String := ["compute", "info", "solve", "matrixL", "matrixU", "permutationP", "permutationPinv", "isSymmetric"]
+
+/-- the documented interface, with arguments: `compute(…)` / `solve(…)` on anything; the argument-less queries; exactly ONE configuration call,
+    `isSymmetric(true)` (SparseLU on a symmetric matrix: ordering on `A + Aᵀ`, NO change of the pivoting rule); and the only place where a solver
+    object is handed on: `SymShiftInvert::set_shift` passes `m_solver` to its own helper -/
+def documentedCall (call args : String) : Bool :=
+  call == "compute" || call == "solve" ||
+  ((call == "info" || call == "matrixL" || call == "matrixU" || call == "permutationP" || call == "permutationPinv") && args == "") ||
+  (call == "isSymmetric" && args == "true") ||
+  (call == "(use)" && args == "Helper::factorize(m_solver, m_matA, m_matB, sigma)")
+
+/-- the settings of an `Eigen::SparseLU` object that member functions can change (SparseLU.h:158 constructor `m_symmetricmode(false),
+    m_diagpivotthresh(1.0)`; :234 `isSymmetric(bool)`; :277 `setPivotThreshold(thresh)`).  `pivotThreshold = none` is the constructor's 1.0,
+    i.e. partial pivoting: `pivotL` keeps the diagonal entry only if it is a largest entry of its column (`diagPivotAccepted`). -/
+structure LUConfig where
+  symmetricMode : Bool
+  pivotThreshold : Option String
+  deriving DecidableEq, Repr
+
+def LUConfig.initial : LUConfig := ⟨false, none⟩
+
+/-- effect of one member call -/
+def LUConfig.step (c : LUConfig) (call args : String) : LUConfig :=
+  if call = "isSymmetric" then { c with symmetricMode := (args == "true") }
+  else if call = "setPivotThreshold" then { c with pivotThreshold := some args }
+  else c
+
+/-- effect of a history of member calls -/
+def LUConfig.run (c : LUConfig) (hist : List SolverCall) : LUConfig := hist.foldl (fun c e => c.step e.call e.args) c
+
+/-- `SparseLUImpl::pivotL` (SparseLU_pivotL.h:97-108): the diagonal entry `d` of the current column, whose largest magnitude is `pivmax`, is taken
+    as the pivot iff it is non-zero and `|d| ≥ diagpivotthresh * pivmax` (otherwise the largest entry is) -/
+def diagPivotAccepted {α : Type} [Mul α] [Sc α] (thresh pivmax d : α) : Bool :=
+  !(Sc.eq (Sc.abs d) (Sc.ofInt 0)) && Sc.le (thresh * pivmax) (Sc.abs d)
+
 end Ops
